@@ -18,6 +18,7 @@ package generator
 
 import (
 	"go/token"
+	"strconv"
 	"strings"
 	"unicode"
 	"unicode/utf8"
@@ -67,17 +68,28 @@ func golangTrackerLocalName(tracker namer.ImportTracker, t types.Name) string {
 		klog.Warningf("Warning: backslash used in import path '%v', this is unsupported.\n", path)
 	}
 
+	taken := func(name string) bool {
+		// This name collides with some other package
+		_, found := tracker.PathOf(name)
+		return found
+	}
+
 	dirs := strings.Split(path, namer.GoSeperator)
+	name := ""
 	for n := len(dirs) - 1; n >= 0; n-- {
 		// follow kube convention of not having anything between directory names
-		name := importName(strings.Join(dirs[n:], ""))
-		if _, found := tracker.PathOf(name); found {
-			// This name collides with some other package
-			continue
+		name = importName(strings.Join(dirs[n:], ""))
+		if !taken(name) {
+			return name
 		}
-		return name
 	}
-	panic("can't find import for " + path)
+	// Even the fully qualified name is taken (e.g. "a/b" after "x/b" and
+	// "ab"): number it.
+	for i := 2; ; i++ {
+		if numbered := name + strconv.Itoa(i); !taken(numbered) {
+			return numbered
+		}
+	}
 }
 
 // importName turns the concatenated directory names of an import path into a
